@@ -2,6 +2,8 @@
 """Print the sub-agent prompt for one property and one scratch worktree (nothing from /verif but the property text)."""
 import json,sys
 pid,wt=sys.argv[1],sys.argv[2]
+HARD=len(sys.argv)>3 and sys.argv[3]=='hard'
+FOCUS=sys.argv[4] if len(sys.argv)>4 else ''
 p=[json.loads(l) for l in open('/verif/properties.jsonl') if json.loads(l)['id']==pid][0]
 print(f"""You are helping to test a verification tool by producing one realistic, subtle regression in a codebase.
 
@@ -29,4 +31,8 @@ Deliver, in your final message:
   - the path of a file {wt}/demo.diff containing ONLY the demonstration (the new test file and the one `mod` line),
   - the exact command to run the demonstration,
   - 3-6 sentences: what the change is, why it breaks the property, and exactly what is needed for it to manifest (which instructions in which order, which values, which configuration).
-Leave the worktree with BOTH the change and the demonstration applied. Be economical: read only the code you need.""")
+Leave the worktree with BOTH the change and the demonstration applied. Be economical: read only the code you need."""
++ ("""
+
+HARD MODE: assume the verification tool is a randomized end-to-end simulator that executes the real program with many users, admins, liquidators, oracle updates and clock advances, and re-checks this property after every instruction against an independent model. A change that any ordinary sequence of a few instructions exposes will be caught at once and is useless. Make the breakage depend on a CONJUNCTION of at least three uncommon conditions (for example: a specific configuration value AND a particular order of two different instruction kinds AND an elapsed-time or boundary condition; or a rarely used instruction AND a particular account state AND a specific argument combination). Say precisely what the conjunction is.""" if HARD else "")
++ (("\n\nFOCUS: " + FOCUS) if FOCUS else ""))
